@@ -24,6 +24,7 @@ type Claim struct {
 	Assumptions []string `json:"assumptions"`
 	Bounded     []string `json:"bounded"`
 	Replay      string   `json:"replay"`
+	ContractFiles string `json:"contract_files"` // regexp over contract file base names (default: all)
 }
 
 var verifDir = "/verif"
@@ -120,7 +121,11 @@ func runCheck(id, tier, repo, dump, only string, list bool) int {
 	var engines []*Engine
 	var internalErrs []string
 	for _, u := range claim.Units {
-		e, err := LoadEngine(repo, u.Module, u.Packages, specs)
+		var ff *regexp.Regexp
+		if claim.ContractFiles != "" {
+			ff = regexp.MustCompile(claim.ContractFiles)
+		}
+		e, err := LoadEngine(repo, u.Module, u.Packages, specs, ff)
 		if err != nil {
 			// a tree that does not load cannot be verified: report as violation without input
 			internalErrs = append(internalErrs, fmt.Sprintf("load %s %v: %v", u.Module, u.Packages, err))
@@ -156,7 +161,7 @@ func runCheck(id, tier, repo, dump, only string, list bool) int {
 	for _, k := range keys {
 		var eng *Engine
 		for _, e := range engines {
-			if e.fnIdx[k] != nil {
+			if e.fnIdx[strings.SplitN(k, "#", 2)[0]] != nil {
 				eng = e
 				break
 			}
